@@ -152,7 +152,7 @@ def pair_part(ck):
         for kern in kernels:
             for cl in (False, True):
                 base = dict(sample=kern, clustering=cl, n_particles=8)
-                variants = [dict(evaluation="scalar"), dict(evaluation="vector"), dict(evaluation="blobs"), dict(pool="perm", pool_seed=sd), dict(pool=1)]
+                variants = [dict(evaluation="scalar"), dict(evaluation="vector"), dict(evaluation="vector_reuse"), dict(evaluation="blobs"), dict(pool="perm", pool_seed=sd), dict(pool=1)]
                 if ck.tier == "thorough":
                     variants.append(dict(pool=2))
                 g = []
@@ -191,7 +191,7 @@ def main():
     mc["states"] += cov["states"]
     mc["transitions"] += cov["transitions"]
     cov.update(mc)
-    factors = {"evaluation": ["scalar", "vector", "blobs", {"pool": "perm"}, {"pool": 1}], "sample": ["tpcn", "rwm"], "clustering": [True, False], "resample": ["mult", "syst"]}
+    factors = {"evaluation": ["scalar", "vector", "vector_reuse", "blobs", {"pool": "perm"}, {"pool": 1}], "sample": ["tpcn", "rwm"], "clustering": [True, False], "resample": ["mult", "syst"]}
     jobs = sysrun.product_jobs(factors, {"n_particles": 8}, ck.seed + 13, limit=24 if ck.tier == "quick" else None)
     sc, traces = sysrun.system_part(ck, "C13", jobs, lambda t: (t["meta"]["label"], t["meta"]["seed"]) if any(e["ev"] == "MutateEnd" for e in t["events"]) else None)
     cov.update(sc)
